@@ -110,3 +110,41 @@ func (t *T) Decode(p []byte) error {
 	}
 	return nil
 }
+
+// OVERWRITE controls
+type N struct {
+	id    uint64
+	final bool
+}
+
+func (t *N) GoodDecode(p []byte) error {
+	ts := make([]*N, len(p))
+	ts[0] = t
+	for i := 1; i < len(p); i++ {
+		ts[i] = new(N)
+	}
+	for i := range p {
+		ts[i].id = uint64(i)
+		if p[i] != 0 {
+			ts[i].final = true
+		} else {
+			ts[i].final = false
+		}
+	}
+	return nil
+}
+
+func (t *N) BadDecode(p []byte) error {
+	ts := make([]*N, len(p))
+	ts[0] = t
+	for i := 1; i < len(p); i++ {
+		ts[i] = new(N)
+	}
+	for i := range p {
+		ts[i].id = uint64(i)
+		if p[i] != 0 {
+			ts[i].final = true
+		}
+	}
+	return nil
+}
